@@ -54,7 +54,7 @@ theorem fold_measure_decreases (f f' : FS) (hf : FInv f) (h : foldBody f = .ok (
   rw [h] at hst
   have e : Step.cont f' = st := Except.ok.inj hst
   subst e
-  exact hok.2.2.2.2
+  exact hok.2.2.2.2.2
 
 /-- the measure is linear in the input length -/
 theorem fold_measure_linear (f : FS) (hf : FInv f) : bigM f ≤ 1015 * f.s.input.length + 1014 := by
